@@ -241,8 +241,9 @@ class ProgGen:
                 lines.append("%sif %s:" % (ind, self.cond(env, ctx)))
                 body = self.block(depth - 1, env, bufs, ctx, ind + "    ", budget)
                 lines += body or [ind + "    pass"]
-                if rng.random() < 0.35:
+                if rng.random() < 0.45:
                     lines.append(ind + "else:")
+                    budget[0] += 1  # the else branch should not starve: context-dependent rewrites live there
                     body = self.block(depth - 1, env, bufs, ctx, ind + "    ", budget)
                     lines += body or [ind + "    pass"]
             elif k == "alloc":
@@ -265,16 +266,16 @@ class ProgGen:
                     lines.append("%s%s = %s" % (ind, nm, self.rhs(bufs, env, 1)))
                 bufs.append(b)
             elif k == "window":
-                src = [b for b in bufs if b.dims and not b.is_alias or (b.dims and rng.random() < 0.3)]
+                src = [b for b in bufs if b.dims and not b.is_alias or (b.dims and rng.random() < 0.6)]
                 if not src:
                     continue
                 b = rng.choice(src)
                 acc, dims = [], []
                 for d in b.dims:
-                    if rng.random() < 0.3 and len(b.dims) > 1:
+                    if rng.random() < 0.4 and len(b.dims) > 1:
                         acc.append(self.index(d, env))
                     elif isinstance(d, int):
-                        lo = rng.randrange(d)
+                        lo = rng.randrange(d) if rng.random() < 0.8 else 0
                         hi = rng.randint(lo + 1, d)
                         acc.append("%d:%d" % (lo, hi))
                         dims.append(hi - lo)
@@ -285,7 +286,14 @@ class ProgGen:
                     continue
                 nm = self.name("w")
                 lines.append("%s%s = %s[%s]" % (ind, nm, b.name, ", ".join(acc)))
-                bufs.append(Buf(nm, dims, writable=b.writable, window=True, is_alias=True))
+                wb = Buf(nm, dims, writable=b.writable, window=True, is_alias=True)
+                bufs.append(wb)
+                if b.writable and rng.random() < 0.6:
+                    # accesses to the same storage through the alias and through its source, next to each other
+                    pair = ["%s%s = %s" % (ind, self.access(wb, env), self.rhs(bufs, env, 1)),
+                            "%s%s %s %s" % (ind, self.access(b, env), rng.choice(["=", "+="]), self.rhs(bufs, env, 1))]
+                    rng.shuffle(pair)
+                    lines += pair
             elif k == "call":
                 sp = rng.choice(self.subprocs)
                 args, ok, used_bufs = [], True, set()
